@@ -172,6 +172,33 @@ func unitOf(f *ssa.Function) []*ssa.Function {
 	return out
 }
 
+// unitFuncs: f, its function literals, and the same for the transparent helpers it calls.
+func unitFuncs(f *ssa.Function) []*ssa.Function {
+	var out []*ssa.Function
+	u := unitOf(f)
+	if len(u) > 1 {
+		CallsIn(f) // registers the via-mapping
+	}
+	for _, g := range u {
+		out = append(out, WithAnon(g)...)
+	}
+	return out
+}
+
+// unitBlocks: the blocks of unitFuncs(f) except function literals (same shape as f.Blocks for a function
+// that calls no transparent helper).
+func unitBlocks(f *ssa.Function) []*ssa.BasicBlock {
+	var out []*ssa.BasicBlock
+	u := unitOf(f)
+	if len(u) > 1 {
+		CallsIn(f)
+	}
+	for _, g := range u {
+		out = append(out, g.Blocks...)
+	}
+	return out
+}
+
 // rootCallers: the reference-tree functions on whose behalf f runs: f itself, or, for a new helper, the
 // callers of its call sites (transitively).
 func rootCallers(f *ssa.Function) []*ssa.Function {
